@@ -23,6 +23,9 @@ type Config struct {
 	Alloc    string `json:"alloc"` // "go" | custom allocator behaviour: "exact" | "reserve" | "recycled" | "refusing"
 	Imported bool   `json:"imported"`
 	Shared   bool   `json:"shared,omitempty"` // threads proposal: shared memory (needs a declared max)
+	// Private: the memory is defined in the module and NOT exported (nothing but the module itself and the host,
+	// through api.Module.Memory(), can reach it). Only meaningful for a local memory.
+	Private bool `json:"private,omitempty"`
 	// Prime: before this configuration is explored, the same binaries are compiled and instantiated in ANOTHER
 	// runtime with the limits below that shares the CompilationCache with the explored runtime.
 	Prime *Prime `json:"prime,omitempty"`
@@ -49,6 +52,9 @@ func (c Config) String() string {
 	loc := "local"
 	if c.Imported {
 		loc = "imported"
+	}
+	if c.Private {
+		loc += "-private(not exported)"
 	}
 	if c.Shared {
 		loc += " shared"
@@ -124,12 +130,15 @@ func allConfigs() []Config {
 						for _, imp := range []bool{false, true} {
 							out = append(out, Config{Min: mn, Max: mx, HasMax: has, Limit: lim, CapMax: cm, Alloc: al, Imported: imp})
 						}
+						// visibility twin of the local memory: defined in the module and not exported
+						out = append(out, Config{Min: mn, Max: mx, HasMax: has, Limit: lim, CapMax: cm, Alloc: al, Private: true})
 						// shared twin: needs a declared maximum and an allocator that never moves the buffer
 						// (the "exact" behaviour, cap == len, cannot back a shared memory by contract)
 						if has && al != "exact" {
 							for _, imp := range []bool{false, true} {
 								out = append(out, Config{Min: mn, Max: mx, HasMax: has, Limit: lim, CapMax: cm, Alloc: al, Imported: imp, Shared: true})
 							}
+							out = append(out, Config{Min: mn, Max: mx, HasMax: has, Limit: lim, CapMax: cm, Alloc: al, Private: true, Shared: true})
 						}
 					}
 				}
@@ -192,9 +201,57 @@ func (o Op) String() string { return fmt.Sprintf("%s.grow(%d)", o.Src, o.Delta) 
 
 func sources(c Config) []string {
 	if c.Imported {
-		return []string{"guest", "iguest", "iguestf", "host"}
+		return []string{"guest", "iguest", "iguestf", "host", "inest:hc", "inest:hi", "inest:lc", "inest:li", "inest:oc", "inest:oi"}
 	}
-	return []string{"guest", "guestf", "host"}
+	return []string{"guest", "guestf", "host", "nest:hc", "nest:hi", "nest:lc", "nest:li"}
+}
+
+// Nested grow requests: the grow happens INSIDE a call made by a guest function that accesses the memory before
+// and after that call (so whatever the engine caches about the memory across the call must be refreshed).
+// "nest:<callee>" is issued by the defining module, "inest:<callee>" by the importing module. Callees:
+//
+//	hc  direct call of an imported HOST function that grows the caller's memory through api.Module.Memory().Grow
+//	hi  the same host function through call_indirect
+//	lc  direct call of a function of the same module that executes memory.grow
+//	li  the same function through call_indirect
+//	oc  (importing module only) direct call of the imported `grow` function of the DEFINING module (guest code of
+//	    another instance executing memory.grow on the shared memory object)
+//	oi  the same function through call_indirect
+var nestedCallee = map[string]string{
+	"hc": "call-imported-host", "hi": "call_indirect-imported-host",
+	"lc": "call-local", "li": "call_indirect-local",
+	"oc": "call-imported-guest", "oi": "call_indirect-imported-guest",
+}
+
+func isNested(src string) bool {
+	return len(src) > 5 && (src[:5] == "nest:" || (len(src) > 6 && src[:6] == "inest:"))
+}
+
+// nestedKind returns the callee letters of a nested source.
+func nestedKind(src string) string { return src[len(src)-2:] }
+
+// deltasFor: plain sources use the whole delta alphabet; for nested sources the limit arithmetic is the same code as
+// for the plain request of the same grower, so they use the classes that matter to what is cached across the call —
+// {0, 1, bound-cur, bound-cur+1} plus the refusal threshold (no-op, smallest growth, growth to the bound, refusal).
+func deltasFor(c Config, pages uint32, src string) []uint32 {
+	if !isNested(src) {
+		return deltasAt(c, pages)
+	}
+	set := map[uint32]bool{0: true, 1: true}
+	if b := c.Bound(); b >= pages {
+		set[b-pages] = true
+		set[b-pages+1] = true
+	}
+	if r := c.RefusePages(); r != 0 && r >= pages && r <= maxPages {
+		set[r-pages] = true
+		set[r-pages+1] = true
+	}
+	var out []uint32
+	for d := range set {
+		out = append(out, d)
+	}
+	sort.Slice(out, func(i, j int) bool { return out[i] < out[j] })
+	return out
 }
 
 // deltasAt is the delta alphabet in a state with `pages` pages: {0,1,2,bound-cur,bound-cur+1,
